@@ -101,6 +101,10 @@ class Stats:
                 "failures": self.failures, "skipped": self.skipped, "time_capped": self.time_capped}
 
 
+class HarnessAbort(BaseException):
+    pass
+
+
 def run_check(mod, case):
     """Run the plain oracle. Harness errors propagate; property failures are in res.failures."""
     return mod.check(case)
@@ -155,7 +159,11 @@ def worker(args):
                     if shrinking and now - state["fail_t"] > shrink_s:
                         state["stop_shrink"] = True     # shrink budget used up: let Hypothesis finish quickly
                         return
-                    res = run_check(mod, case)
+                    try:
+                        res = run_check(mod, case)
+                    except Exception:
+                        # a bug in the property module (or an exception the module did not classify): harness error
+                        raise HarnessAbort(traceback.format_exc() + "\ncase: " + jdump(case)[:3000])
                     if not shrinking:
                         state["count"] += 1
                         stats.add(case, res)
@@ -202,6 +210,8 @@ def worker(args):
         out = stats.to_json()
         out["wall_s"] = time.time() - t0
         return ("ok", shard, out)
+    except HarnessAbort as e:
+        return ("error", shard, str(e))
     except BaseException:
         return ("error", shard, traceback.format_exc())
     finally:
